@@ -64,7 +64,11 @@ def _prune(root, keep_dir):
         d = dirs.pop(0)
         base = os.path.basename(d)  # s<seed>-<tier>
         seed, tier = base[1:].split("-", 1)
-        tag = "s%s%s" % (seed, tier[:1])
+        only = ""
+        for t in ("quick", "thorough"):
+            if tier.startswith(t):
+                tier, only = t, tier[len(t):]
+        tag = "s%s%s%s" % (seed, tier[:1], only.lower())
         shutil.rmtree(d, ignore_errors=True)
         rel = os.path.join(root, "target", "release")
         for pat in ("deps/*dxs_%s_*" % tag, ".fingerprint/dxs_%s_*" % tag, "build/dxs_%s_*" % tag, "dxs_%s_*" % tag,
@@ -79,14 +83,14 @@ def _prune(root, keep_dir):
                         pass
 
 
-def _build_generated(seed, tier, logf):
+def _build_generated(seed, tier, logf, only=None):
     wsdir, env = core.cargo_build("dfirx", "dx_shape", logf)
     gen = core.bin_path("dfirx", "dx_shape")
     _, tgt = core.workspace_dir("dfirx")
     root = os.path.join(tgt, "dxshape-gen")
-    gdir = os.path.join(root, "s%d-%s" % (seed, tier))
+    gdir = os.path.join(root, "s%d-%s%s" % (seed, tier, only or ""))
     os.makedirs(gdir, exist_ok=True)
-    tag = "s%d%s" % (seed, tier[:1])
+    tag = "s%d%s%s" % (seed, tier[:1], (only or "").lower())
     env = dict(env)
     env["CARGO_TARGET_DIR"] = os.path.join(root, "target")
     lockf = open(os.path.join(root, ".lock"), "w")
@@ -95,6 +99,8 @@ def _build_generated(seed, tier, logf):
         _prune(root, gdir)
         base = [gen, "gen", "--seed", str(seed), "--tier", tier, "--out", gdir, "--repo", core.repo_path(),
                 "--self", os.path.join(wsdir, "dx_shape")]
+        if only:
+            base += ["--only", only]
 
         def gen_pass(extra):
             rc, out = core.run_logged(base + extra, wsdir, env, logf, 600)
@@ -111,18 +117,22 @@ def _build_generated(seed, tier, logf):
         cargo = ["cargo", core.TOOLCHAIN, "build", "--release", "--offline", "--message-format=json", "--keep-going"]
         ok, errors = _cargo_json(cargo + ["-p", run_pkg], gdir, env, logf, 7200)
         if not ok:
+            spref = "dxs_%s_s_" % tag
             parts = sorted(n for n in errors if n.startswith("dxs_%s_p" % tag))
-            other = sorted(n for n in errors if not n.startswith("dxs_%s_p" % tag))
-            if other or not parts:
+            failed = {n[len(spref):]: "\n".join(v)[:3000] for n, v in errors.items() if n.startswith(spref)}
+            other = sorted(n for n in errors if not n.startswith("dxs_%s_p" % tag) and not n.startswith(spref))
+            if other or not (parts or failed):
                 raise core.Inconclusive("generated workspace failed outside the generated programs: %s (see %s)"
                                         % (", ".join(other) or "no compiler message", logf))
-            # second pass: one crate per program of the failing part crates
-            gen_pass(["--reuse", "--isolate", ",".join(parts)])
-            ok2, errors2 = _cargo_json(cargo + ["--workspace"], gdir, env, logf, 7200)
-            pref = "dxs_%s_i_" % tag
-            failed = {n[len(pref):]: "\n".join(v)[:3000] for n, v in errors2.items() if n.startswith(pref)}
-            if not failed:
-                raise core.Inconclusive("part crates %s fail but no single program does (see %s)" % (parts, logf))
+            if parts:
+                # second pass: one crate per program of the failing part crates
+                gen_pass(["--reuse", "--isolate", ",".join(parts)])
+                ok2, errors2 = _cargo_json(cargo + ["--workspace"], gdir, env, logf, 7200)
+                pref = "dxs_%s_i_" % tag
+                iso = {n[len(pref):]: "\n".join(v)[:3000] for n, v in errors2.items() if n.startswith(pref)}
+                if not iso:
+                    raise core.Inconclusive("part crates %s fail but no single program does (see %s)" % (parts, logf))
+                failed.update(iso)
             ff = os.path.join(gdir, "failed.json")
             json.dump(failed, open(ff, "w"), indent=1)
             gen_pass(["--reuse", "--failed", ff])
@@ -154,7 +164,10 @@ def run(prop, tier, seed, logf, replay):
             gtier = case.get("gen_tier", gtier)
         except Exception:
             pass
-    wsdir, env, exe = _build_generated(gseed, gtier, logf)
+    # VERIF_DXSHAPE_ONLY=1: compile only the requested property's programs (mutation validation: every mutated
+    # compiler would otherwise recompile all three properties' programs). Default: one workspace shared by all.
+    only = prop if os.environ.get("VERIF_DXSHAPE_ONLY") else None
+    wsdir, env, exe = _build_generated(gseed, gtier, logf, only)
     cmd = [exe, "--prop", prop, "--tier", tier, "--seed", str(seed)]
     if replay:
         cmd += ["--replay", replay]
